@@ -23,7 +23,7 @@ RULE = ("full in-memory stack; byte strings of EVERY length 0..3100 (covering th
 ASSUMPTIONS = ["payloads are published after the client's handshake (incl. its enableBLOB) has been processed",
                "known finding: a payload message longer than the junk threshold on a link whose threshold is enabled is dropped"]
 REQUIRED_EVENTS = ["sessions", "payloads_published", "payloads_uploaded", "payloads_verified", "no_payload_checks", "republished_same_object",
-                   "buffer_process_calls_guarded", "half_way_holds", "following_traffic_checks", "drains_that_waited_for_a_slow_peer", "snooping_client_blob_checks", "routed_messages_checked_for_mutation", "read_handler_backed_blobs_published", "sessions_where_definitions_arrive_between_the_two_connects"]
+                   "buffer_process_calls_guarded", "half_way_holds", "following_traffic_checks", "drains_that_waited_for_a_slow_peer", "snooping_client_blob_checks", "routed_messages_checked_for_mutation", "read_handler_backed_blobs_published", "sessions_where_definitions_arrive_between_the_two_connects", "blobs_published_after_the_client_was_restarted"]
 
 FORMATS = [".fits", "", ".bin", ".é", ".fits.z", ".ÿ<&>"]
 FRAGS = ["1024", "1", "random"]
@@ -381,6 +381,45 @@ async def session(ctx, case):
                 if direction == "d2c-client" and l is links[1] and "<setTextVector" in sent[sent.find("<setBLOBVector"):]:
                     ctx.violate("non-blob-traffic-on-only-connection", "the Only connection received a text update after its handshake", case)
                     return False
+        if direction == "d2c-client":
+            # The application stops its Client and starts the SAME object again (the server was restarted, the network was down).
+            # It is the same application with the same wish: the frames published afterwards must reach it again.
+            client.stop()
+            for l in links:
+                l.s2c.hold = True               # a closed socket delivers nothing further
+                l.c_reader.feed_eof()
+            if await sess.quiesce() < 0:
+                ctx.violate("stall:after-client-stop", "loop did not quiesce after Client.stop()", case)
+                return False
+            p = problems()
+            if p and not p[0].startswith("receive-loop-ended"):
+                ctx.violate(p[0] + ":after-client-stop", p[1], case)
+                return False
+            sess.mon.tasks = [t for t in sess.mon.tasks if not t.done()]      # the closed connections' loops have ended, as they should
+            sess.connect_delay.clear()
+            try:
+                await client.start()
+            except Exception as e:
+                ctx.violate(f"client-restart-raises:{type(e).__name__}", f"Client.start() after stop() raised {e!r}", case)
+                return False
+            if await sess.quiesce() < 0:
+                ctx.violate("stall:after-client-restart", "loop did not quiesce after the second Client.start()", case)
+                return False
+            data5 = b"again" + data[:50]
+            el.value = values.BLOB(data5, ".again")
+            if await sess.quiesce() < 0:
+                ctx.violate("stall:after-client-restart", "loop did not quiesce after a publication to the restarted client", case)
+                return False
+            p = problems()
+            if p:
+                ctx.violate(p[0] + ":after-client-restart", p[1], case)
+                return False
+            got5 = fullstack.norm_blob(stack.client_view(client).get("CAM", {}).get("IMG", {}).get("elements", {}).get("IMG_E0", (None, None))[1])
+            ctx.count("blobs_published_after_the_client_was_restarted")
+            if got5 != ("blob", data5, ".again"):
+                ctx.violate("blob-after-client-restart-lost", f"the Client was stopped and started again (same object); it holds {describe(got5)} after the device "
+                                                              f"published {describe(('blob', data5, '.again'))}", case)
+                return False
         if snoop is not None:
             sv = stack.client_view(snoop).get("CAM", {}).get("IMG", {}).get("elements", {})
             for k, e in (("IMG_E0", el), ("IMG_E1", D.element_of(drv, "g", "b", "e1")), ("IMG_E2", D.element_of(drv, "g", "b", "e2"))):
